@@ -230,7 +230,11 @@ def a(ctx):
         EA.dead_nodes.add(id(call))
         ctx.note("lemma DIGIT-LABEL applied to `%s` in set_request_uri (premise re-checked: non-empty label of a digits-and-dots string; "
                  "assumes int() is total on non-empty decimal strings, i.e. CPython's int-max-str-digits limit is not modelled)" % stmt_text(call))
-    escs = EA.escapes(fi)
+    try:
+        escs = EA.escapes(fi)
+    except RecursionError:
+        # engine limitation: Resolver.infer does not terminate on `x = x.method()` re-bindings
+        raise AnalysisError("C16.a: type inference of the escape analysis does not terminate on this tree")
     ctx.need(not EA.unresolved, "unresolved calls inside the escape region of set_request_uri: %s" % EA.unresolved[:4])
     unknown = sorted(n for n in EA.external_calls if n not in BENIGN_EXTERNALS and n not in EA.ext and n not in BUILTIN_EXC
                      and not n.startswith(("logging.", "self.log.", "log.")) and n.split(".")[-1] not in BUILTIN_EXC)
@@ -399,38 +403,6 @@ def _check_quote_factory(ctx):
     ctx.ob("quote_factory(S) keeps exactly the bytes of S and percent-encodes every other UTF-8 byte", ok, fi, q.node, detail=why, construct="quote_factory.<locals>.%s" % q.name)
 
 
-def _join_site(ctx, fi, e):
-    """Interpret `e` as the composition of a URI component from a sequence:
-    returns (effective separator, leading, quote function name, iterated expr) for
-      SEP.join(Q(x) for x in xs)            -> (SEP, False, Q, xs)
-      "".join(SEP + Q(x) for x in xs)       -> (SEP, True,  Q, xs)
-      SEP + SEP.join(Q(x) for x in xs)      -> (SEP, True,  Q, xs)
-    optionally followed by `or <default>`."""
-    if isinstance(e, ast.BoolOp) and isinstance(e.op, ast.Or):
-        e = e.values[0]
-    lead = None
-    ops = plus_operands(e)
-    if len(ops) == 2:
-        lead = try_eval(ctx.prog, fi.module, ops[0])
-        e = ops[1]
-    m = match("$sep.join($elt for $x in $xs)", e) or match("$sep.join([$elt for $x in $xs])", e)
-    if m is None or not isinstance(m["x"], ast.Name):
-        return None
-    sep = try_eval(ctx.prog, fi.module, m["sep"])
-    eops = plus_operands(m["elt"])
-    call = eops[-1]
-    if not (isinstance(call, ast.Call) and isinstance(call.func, ast.Name) and len(call.args) == 1 and isinstance(call.args[0], ast.Name) and call.args[0].id == m["x"].id):
-        return None
-    if len(eops) == 2 and sep == "" and lead is None:
-        pre = try_eval(ctx.prog, fi.module, eops[0])
-        if isinstance(pre, str) and pre:
-            return pre, True, call.func.id, m["xs"]
-        return None
-    if len(eops) == 1 and isinstance(sep, str) and sep and lead in (None, sep):
-        return sep, lead is not None, call.func.id, m["xs"]
-    return None
-
-
 def _split_site(ctx, fi, cfg, P, comp, st):
     """Interpret the value of `self.opt.uri_<x> = value`: ('empty',) or
     ('split', separator, dropped leading elements, decoded ok, strict ok)."""
@@ -461,21 +433,6 @@ def _split_site(ctx, fi, cfg, P, comp, st):
     dec = isinstance(e, ast.Call) and ext_name(fi.module, e) == "urllib.parse.unquote" and len(e.args) == 1 and isinstance(e.args[0], ast.Name) and e.args[0].id == x
     strict = dec and any(k.arg == "errors" and try_eval(ctx.prog, fi.module, k.value) == "strict" for k in e.keywords)
     return ("split", sep, drop, dec, strict)
-
-
-def _urlunparse_slots(ctx, fi):
-    """{'path': expr, 'query': expr} as passed to urllib.parse.urlunparse / urlunsplit in get_request_uri, with the CFG node of the call."""
-    cfg = cfg_of(fi)
-    out = []
-    for n in walk_no_nested(fi.node):
-        if isinstance(n, ast.Call):
-            nm = ext_name(fi.module, n)
-            if nm in ("urllib.parse.urlunparse", "urllib.parse.urlunsplit") and len(n.args) == 1:
-                t = resolve_at(fi, n.args[0], cfg.loc1(n))
-                want = 6 if nm.endswith("urlunparse") else 5
-                if isinstance(t, (ast.Tuple, ast.List)) and len(t.elts) == want:
-                    out.append((n, {"path": t.elts[2], "query": t.elts[4 if want == 6 else 3]}))
-    return out
 
 
 @R.clause("C16.c", "separators are never in a safe set; split and join separators of set_request_uri / get_request_uri agree")
@@ -519,14 +476,14 @@ def c(ctx):
     # --- writer
     gfi = ctx.prog.func(GET)
     gcfg = cfg_of(gfi)
-    slots = _urlunparse_slots(ctx, gfi)
+    slots = urlunparse_slots(gfi)
     ctx.need(len(slots) >= 1, "get_request_uri: no urlunparse((scheme, netloc, path, params, query, fragment)) call found")
     nsites = 0
     for call, sl in slots:
         at = gcfg.loc1(call)
         for comp, rfc_sep, others in (("path", "/", "?#%"), ("query", "&", "#%")):
             e = resolve_at(gfi, sl[comp], at)
-            j = _join_site(ctx, gfi, e)
+            j = join_site(ctx.prog, gfi, e)
             ctx.need(j is not None, "get_request_uri: the %s passed to urlunparse is not a recognised join of quoted segments: `%s`" % (comp, stmt_text(e, 90)))
             sep, leading, qname, xs = j
             ctx.need(qname in qf, "get_request_uri: %s segments are quoted by `%s`, which is not a quote_factory product of message.py" % (comp, qname))
@@ -622,7 +579,7 @@ def _ip_literal_predicate(ctx, fi, P, E):
                 parts[k] = True
             for k in {"dots", "digits", "octets"} - kinds:
                 extra.append(ast.parse("'<missing conjunct: %s>'" % k, mode="eval").body)
-        else:
+        elif not conj:
             extra.append(d)
     return parts, extra
 
@@ -654,10 +611,10 @@ def d(ctx):
         for e, pol, pid in other:
             if isinstance(e, ast.Name) and e.id in optout and is_unwritten_param(fi, e.id) and pol:
                 continue
-            if isinstance(e, ast.Name) and not pol:
+            if isinstance(e, ast.Name) and pred is None:
                 E = unique_def_expr(fi, e.id, cfg.pred[pid][0][0])
-                if E is not None and pred is None:
-                    pred = (e, E)
+                if E is not None and (not pol or any(_ip_literal_predicate(ctx, fi, P, E)[0].values())):
+                    pred = (e, E, pol)
                     continue
             sib = sibling(cfg, pid)
             if sib is not None and side_rejects(cfg, sib):
@@ -666,6 +623,7 @@ def d(ctx):
         ctx.need(pred is not None, "set_request_uri: the Uri-Host store is not under `not <local holding the IP-literal predicate>`")
         ctx.ob("Uri-Host is omitted under no condition other than the IP-literal predicate and the set_uri_host opt-out", not unknown, fi, st,
                detail="further conditions: %s" % [(stmt_text(e, 60), pol) for e, pol in unknown])
+        ctx.ob("Uri-Host is stored when the IP-literal predicate is false (and omitted when it is true)", pred[2] is False, fi, st, detail="stored when `%s` is %s" % (pred[0].id, pred[2]))
         parts, extra = _ip_literal_predicate(ctx, fi, P, pred[1])
         pnode = pred[1]
         ctx.ob("IP-literal predicate: a bracketed netloc is a literal", parts["bracket"], fi, pnode, construct="is_ip_literal: bracketed")
@@ -868,7 +826,7 @@ R.seed("C16.a", F_M, "            raise error.MalformedUrlError(\"CoAP URIs need
 R.seed("C16.a", F_M, "            except UnicodeError as e:\n                raise error.MalformedUrlError(\n                    \"Percent encoded strings in CoAP URI hosts", "            except KeyError as e:\n                raise error.MalformedUrlError(\n                    \"Percent encoded strings in CoAP URI hosts", "host escapes no longer converted")
 # C16.b
 R.seed("C16.b", F_M, "        if parsed.fragment:\n            raise error.MalformedUrlError(\n                \"Fragment identifiers can not be set on a request URI\"\n            )\n", "", "fragment guard dropped")
-R.seed("C16.b", F_M, "        if parsed.username or parsed.password:\n            raise", "        if parsed.username and parsed.password:\n            raise", "user name alone is accepted")
+R.seed("C16.b", F_M, "        if parsed.username or parsed.password:\n            raise error.MalformedUrlError(", "        if parsed.username and parsed.password:\n            raise error.MalformedUrlError(", "user name alone is accepted")
 R.seed("C16.b", F_M, "        if not parsed.hostname:\n            raise error.MalformedUrlError(\"CoAP URIs need a hostname\")\n", "", "host guard dropped")
 R.seed("C16.b", F_M, "        if not parsed.scheme:\n            raise error.IncompleteUrlError()\n\n        if parsed.scheme not in coap_schemes:\n            self.opt.proxy_uri = uri\n            return\n", "        if parsed.scheme not in coap_schemes:\n            self.opt.proxy_uri = uri\n            return\n", "relative reference becomes a Proxy-Uri")
 R.seed("C16.b", F_M, "            self.opt.proxy_uri = uri\n            return\n", "            self.opt.proxy_uri = uri\n", "non-CoAP scheme falls through into the Uri-* stores")
@@ -889,11 +847,11 @@ R.seed("C16.d", F_M, "                ).translate(_ascii_lowercase)\n", "       
 R.seed("C16.d", F_M, "_ascii_lowercase = str.maketrans(string.ascii_uppercase, string.ascii_lowercase)", "_ascii_lowercase = str.maketrans(string.ascii_lowercase, string.ascii_uppercase)", "table maps the wrong way")
 R.seed("C16.d", F_M, "            parsed.hostname.count(\".\") == 3\n", "            parsed.hostname.count(\".\") >= 3\n", "1.2.3.4.5 treated as IPv4 literal")
 R.seed("C16.d", F_M, "        if set_uri_host and not is_ip_literal:", "        if set_uri_host and is_ip_literal:", "Uri-Host sent for literals only")
-R.seed("C16.d", F_M, "        self.remote = UndecidedRemote(parsed.scheme, parsed.netloc)\n\n        try:\n            _ = parsed.port", "        self.remote = UndecidedRemote(parsed.scheme, parsed.hostname)\n\n        try:\n            _ = parsed.port", "port lost from the remote")
+R.seed("C16.d", F_M, "self.remote = UndecidedRemote(parsed.scheme, parsed.netloc)", "self.remote = UndecidedRemote(parsed.scheme, parsed.hostname)", "port lost from the remote")
 R.seed("C16.d", F_M, "                self.opt.uri_host = urllib.parse.unquote(\n                    parsed.hostname, errors=\"strict\"\n                )", "                self.opt.uri_host = urllib.parse.unquote(\n                    parsed.hostname\n                )", "invalid UTF-8 in the host replaced instead of rejected")
 # C16.e
 R.seed("C16.e", F_U, "    if \":\" in host and not (host.startswith(\"[\") and host.endswith(\"]\")):", "    if \":\" in host and not host.startswith(\"[\"):", "weaker already-bracketed test")
 R.seed("C16.e", F_U, "    if \":\" in host and not (host.startswith(\"[\") and host.endswith(\"]\")):", "    if \":\" in host:", "double bracketing")
 R.seed("C16.e", F_U, "        return pseudoparsed.hostname, pseudoparsed.port", "        return pseudoparsed.netloc, pseudoparsed.port", "split keeps brackets and port in the host")
 R.seed("C16.e", F_M, "            hostinfo = hostportjoin(host, port)\n", "            hostinfo = hostportjoin(host)\n", "port dropped when normalising a literal")
-R.seed("C16.e", F_M, "            host = str(ip)\n", "            host = host.lower()\n", "literal not normalised through ipaddress")
+R.seed("C16.e", F_M, "            host = str(ip)\n", "            host = str(host)\n", "literal not normalised through ipaddress")
